@@ -444,3 +444,33 @@ func fixedAmtsS3x(tier string) []string {
 	}
 	return []string{"2", "5"}
 }
+
+// tagged marks a scenario for monitors that switch an expensive sub-check per scenario.
+func (s *Scenario) tagged(tag string) *Scenario {
+	if s.Tags == nil {
+		s.Tags = map[string]bool{}
+	}
+	s.Tags[tag] = true
+	return s
+}
+
+// S2e: a batch auction whose first instalment is released at instant 3 — right after the first end
+// time (2) but not after the extended ones (3, 4) — with two extension rounds; plus several bidders
+// and several bids, so that exported states hold >1 allow-list entry, >1 bid and >1 instalment.
+func S2e(tier string) *Scenario {
+	cfg := world.Config{Balances: stdBalances(), Params: params("", "", 1)}
+	pre := []Op{
+		{Kind: "create_batch", Signer: "auc1", StartPrice: "1", MinPrice: "0.5", Sell: "6acoin", PayDenom: "bcoin", StartK: 0, EndK: 2, Sched: sched(3, 6), MaxExt: 2, Rate: "0.5"},
+		{Kind: "add_allowed", AID: 0, Bidder: "bid1", Max: "6"},
+		{Kind: "add_allowed", AID: 0, Bidder: "bid2", Max: "6"},
+	}
+	al := &Alphabet{
+		Bidders: []string{"bid1", "bid2"}, AllowBidders: []string{"bid1", "bid2"},
+		UpdateCaps:  []string{"1"},
+		BatchPrices: []string{"1", "2"}, ManyAmts: []string{"1", "3"}, WorthAmts: []string{"4"},
+		ModPrices: []string{"3"},
+		MaxK:      7, BlockStops: []int{2, 3, 4, 5, 6, 7},
+	}
+	bud := Budget{"update": 1, "bid": 3, "mod": 1, "block": 5}
+	return scenFrom("S2e-batch-early-release", cfg, pre, bud, al, nil)
+}
